@@ -50,6 +50,26 @@ type linkT struct {
 type kase struct {
 	Rules []ruleT `json:"rules"`
 	Req   int     `json:"req"`
+	// Phases: phase of rule i (non-decreasing; nil = every rule in phase 2). The initialising SecAction stands in the
+	// first rule's phase, the threshold rule in the last one's. A phase >= 3 gives the exchange a response.
+	Phases []int `json:"phases,omitempty"`
+}
+
+func phaseOf(phases []int, i int) int {
+	if i < len(phases) {
+		return phases[i]
+	}
+	return 2
+}
+
+func withResponse(q scen.Req, phases []int) scen.Req {
+	for _, p := range phases {
+		if p >= 3 {
+			q.Status = 200
+			q.RespHeaders = [][2]string{{"Content-Type", "text/plain"}}
+		}
+	}
+	return q
 }
 
 type pair struct{ n, v string }
@@ -160,11 +180,12 @@ func ruleMenu(thorough bool) []ruleT {
 	return out
 }
 
-func conf(rules []ruleT) string {
+func conf(rules []ruleT, phases ...int) string {
 	var sb strings.Builder
-	sb.WriteString("SecRuleEngine On\nSecRequestBodyAccess On\nSecAction \"id:1,phase:2,pass,nolog,setvar:tx.t=2\"\n")
+	fmt.Fprintf(&sb, "SecRuleEngine On\nSecRequestBodyAccess On\nSecAction \"id:1,phase:%d,pass,nolog,setvar:tx.t=2\"\n", phaseOf(phases, 0))
+	last := phaseOf(phases, len(rules)-1)
 	for i, r := range rules {
-		acts := []string{fmt.Sprintf("id:%d", (i+1)*10), "phase:2", "log"}
+		acts := []string{fmt.Sprintf("id:%d", (i+1)*10), fmt.Sprintf("phase:%d", phaseOf(phases, i)), "log"}
 		hasDisruptive := false
 		for _, a := range r.Actions {
 			if a == "deny" {
@@ -196,8 +217,8 @@ func conf(rules []ruleT) string {
 			fmt.Fprintf(&sb, "  SecRule %s \"@rx ^x\" \"%s\"\n", r.Link.Target, r.Link.Action)
 		}
 	}
-	sb.WriteString("SecRule TX \"@streq never-matches\" \"id:98,phase:2,pass,nolog\"\n")
-	sb.WriteString("SecRule TX:s \"@gt 2\" \"id:99,phase:2,log,deny,status:418\"\n")
+	fmt.Fprintf(&sb, "SecRule TX \"@streq never-matches\" \"id:98,phase:%d,pass,nolog\"\n", last)
+	fmt.Fprintf(&sb, "SecRule TX:s \"@gt 2\" \"id:99,phase:%d,log,deny,status:418\"\n", last)
 	return sb.String()
 }
 
@@ -477,12 +498,33 @@ func run(c *runner.Ctx) {
 		n = 3
 	}
 	idx := 0
+	reduced := map[string]bool{}
+	for i, r := range menu {
+		if i%4 == 0 {
+			reduced[fmt.Sprint(r)] = true
+		}
+	}
 	var rec func(cur []ruleT)
 	rec = func(cur []ruleT) {
 		if len(cur) > 0 {
 			idx++
 			if c.Mine(idx) && !c.Expired() {
 				checkProgram(c, append([]ruleT{}, cur...))
+			}
+			// the same counters in the other phases and across phases ("in every phase"): every one-rule program in
+			// phases 1, 3 and 4; programs of two rules of the reduced menu split over two phases
+			var variants [][]int
+			switch {
+			case len(cur) == 1:
+				variants = [][]int{{1}, {3}, {4}}
+			case len(cur) == 2 && reduced[fmt.Sprint(cur[0])] && reduced[fmt.Sprint(cur[1])]:
+				variants = [][]int{{1, 2}, {2, 4}, {3, 3}, {1, 1}}
+			}
+			for _, v := range variants {
+				idx++
+				if c.Mine(idx) && !c.Expired() {
+					checkProgram(c, append([]ruleT{}, cur...), v...)
+				}
 			}
 		}
 		if len(cur) == n {
@@ -505,29 +547,32 @@ func run(c *runner.Ctx) {
 	rec(nil)
 }
 
-func checkProgram(c *runner.Ctx, rules []ruleT) {
-	defer c.Watch("program", kase{Rules: rules}, 3*time.Minute)()
-	cf := conf(rules)
+func checkProgram(c *runner.Ctx, rules []ruleT, phases ...int) {
+	defer c.Watch("program", kase{Rules: rules, Phases: phases}, 3*time.Minute)()
+	cf := conf(rules, phases...)
 	w, err := scen.Build(cf)
 	if err != nil {
-		c.Violation("build:"+err.Error(), "generated configuration rejected: "+err.Error()+"\n"+cf, kase{Rules: rules})
+		c.Violation("build:"+err.Error(), "generated configuration rejected: "+err.Error()+"\n"+cf, kase{Rules: rules, Phases: phases})
 		return
 	}
 	defer scen.Close(w)
 	for ri, r := range requests {
 		c.Count("evaluations", 1)
-		o := scen.Run(w, r.scen(), scen.Options{Vars: true})
+		if phases != nil {
+			c.Count("evaluations_outside_phase_2", 1)
+		}
+		o := scen.Run(w, withResponse(r.scen(), phases), scen.Options{Vars: true})
 		got, want := renderEngine(o), renderModel(rules, r)
 		c.Outcome(got)
 		if strings.Contains(want, "\" \"") || hasLink(rules) && strings.Contains(want, "rule ") {
-			b, _ := json.Marshal(kase{rules, ri})
+			b, _ := json.Marshal(kase{rules, ri, phases})
 			c.Distinct(string(b))
 			if c.WantSample() {
 				c.Sample(map[string]any{"config": cf, "request": r.scen(), "expected": want})
 			}
 		}
 		if got != want {
-			c.Violation(classify(rules, o), "configuration:\n"+cf+"request: "+r.scen().URI+fmt.Sprintf(" headers=%v", r.scen().Headers)+"\n--- engine:\n"+got+"--- reference model:\n"+want, kase{rules, ri})
+			c.Violation(classify(rules, o), "configuration:\n"+cf+"request: "+r.scen().URI+fmt.Sprintf(" headers=%v", r.scen().Headers)+"\n--- engine:\n"+got+"--- reference model:\n"+want, kase{rules, ri, phases})
 		}
 	}
 }
@@ -572,14 +617,14 @@ func replay(raw json.RawMessage) (bool, string) {
 	if err := json.Unmarshal(raw, &k); err != nil {
 		return false, err.Error()
 	}
-	cf := conf(k.Rules)
+	cf := conf(k.Rules, k.Phases...)
 	w, err := scen.Build(cf)
 	if err != nil {
 		return true, "build: " + err.Error()
 	}
 	defer scen.Close(w)
 	r := requests[k.Req]
-	o := scen.Run(w, r.scen(), scen.Options{Vars: true})
+	o := scen.Run(w, withResponse(r.scen(), k.Phases), scen.Options{Vars: true})
 	got, want := renderEngine(o), renderModel(k.Rules, r)
 	return got != want, fmt.Sprintf("configuration:\n%srequest: %s headers=%v\n--- engine:\n%s--- reference model:\n%s", cf, r.scen().URI, r.scen().Headers, got, want)
 }
